@@ -157,7 +157,11 @@ def run(chk, prog):
     okz = False
     if len(rets) == 1 and isinstance(rets[0].value, ast.Tuple) and len(rets[0].value.elts) == 2 and isinstance(rets[0].value.elts[1], ast.Call) and roles:
         c = rets[0].value.elts[1]
-        a_ = [ast.unparse(x) for x in c.args]
+        # positional and keyword arguments alike, in the class's field order
+        flds_ = prog.cls("TimeTravelingDebugger", MOD).fields
+        byname = {flds_[i]: ast.unparse(x) for i, x in enumerate(c.args) if i < len(flds_)}
+        byname.update({k.arg: ast.unparse(k.value) for k in c.keywords if k.arg})
+        a_ = [byname.get(f_) for f_ in flds_[:4]]
         okz = ast.unparse(c.func) == "TimeTravelingDebugger" and a_ == [roles.get("retval"), roles.get("seq"), roles.get("table"), "0"] and ast.unparse(rets[0].value.elts[0]) == roles.get("retval")
     n_sites += 1
     chk.require(okz, "BOUNDS", "_record.inner/result", "final_retval is the last resumed value; pointer starts at frame 0", derived=ast.unparse(rets[0].value)[:120] if rets else "none", expected="retval, TimeTravelingDebugger(retval, sequence, jump_points, 0)", where=f"{m.rel}:{inner.lineno}")
